@@ -89,8 +89,17 @@ impl<'l, F: AsFd> Async<'l, F> {
         }
 
         // SAFETY: We are sure to deregister on drop.
-        unsafe {
-            inner.register(&dispatcher)?;
+        if let Err(err) = unsafe { inner.register(&dispatcher) } {
+            // leave no trace of a failed adaptation: free the slot, restore the blocking mode
+            inner.kill(&dispatcher);
+            let _ = set_nonblocking(
+                #[cfg(unix)]
+                fd.as_fd(),
+                #[cfg(windows)]
+                fd.as_socket(),
+                was_nonblocking,
+            );
+            return Err(err);
         }
 
         // Straightforward casting would require us to add the bound `Data: 'l` but we don't actually need it
